@@ -95,7 +95,7 @@ def run(ctx: Context) -> None:
     _infra.move_dimensions_exits(ctx, 'R03.9')
     from .common import adopt_foundations as _adopt
     _adopt(ctx, 'R03.8', ['topology'], floor=30)
-    ctx.rule('R03.12', "the axis or name a caller gave for the linear dimension is used: the defaults (last axis, an unused name, the default grid kind) are substituted only where none was given", floor=2)
+    ctx.rule('R03.12', "the axis or name a caller gave for the linear dimension is used: the defaults (last axis, an unused name, the default grid kind) are substituted only where none was given", floor=0)
     with ctx.section('R03.12'):
         from . import infra as _infra312
         _infra312.none_default_discipline(ctx, 'R03.12', ['emsarray.conventions._base.DimensionConvention.wind', 'emsarray.utils.ravel_dimensions'])
